@@ -693,6 +693,9 @@ class Run:
     def _after_handle(self):
         while self.loop.errors:             # exceptions raised inside loop callbacks (reported to the loop's handler)
             ctx = self.loop.errors.pop(0)
+            msg = str(ctx.get('message', ''))
+            if msg.endswith('was never retrieved') or msg.startswith('Task was destroyed'):
+                continue                    # garbage-collection time reports (also of earlier runs' objects): not deterministic, not an escape
             self.log.append(('looperr', exc_tag(ctx.get('exception'))))
         if self.task.done() and not self.task_reported:
             self.task_reported = True
